@@ -23,8 +23,8 @@ EXTENDS Mmio, Json, IOUtils
 
 Log == ndJsonDeserialize(IOEnv.TRACE)
 
-VARIABLES regs, ln, frame
-tvars == <<regs, ln, frame>>
+VARIABLES regs, ln, frame, rdb
+tvars == <<regs, ln, frame, rdb>>
 
 Rec == Log[ln]
 IsEvent(e) == ln <= Len(Log) /\ Rec.e = e
@@ -44,13 +44,23 @@ HidKey == [id \in HidIds |->
                [] OTHER     -> K("icu", id - 432, "vctx")]
 
 Pure == AllOffs \ CmdOffs                       \* offsets the recorder reads back after every event
-WatchT(off) == (DocOffs \ CmdOffs) \cup ({ off } \cap Pure)
-ChangedReads(s0, s1, off) == { <<o, Read(s1, o)>> : o \in { x \in WatchT(off) : Read(s0, x) # Read(s1, x) } }
+DocPure == DocOffs \ CmdOffs
+\* rdb = the read-back of every documented (pure) offset in the current state regs, carried along so
+\* that each line costs one Read per offset, not two; rdb' = ReadAll(regs') in every step
+ReadAll(s1) == TLCEval([o \in DocPure |-> Read(s1, o)])
+\* changed read-backs among the documented offsets and the accessed offset (when undocumented)
+ChangedReads(s1, nrd, off) ==
+         { <<o, nrd[o]>> : o \in { x \in DocPure : nrd[x] # rdb[x] } }
+    \cup (IF off \in Pure \ DocPure /\ Read(s1, off) # Read(regs, off) THEN { <<off, Read(s1, off)>> } ELSE {})
 ChangedHid(s0, s1) == { <<id, s1[HidKey[id]]>> : id \in { x \in HidIds : s0[HidKey[x]] # s1[HidKey[x]] } }
-Observed(s1, off) == /\ SeqSet(Rec.ch)  = ChangedReads(regs, s1, off)
-                     /\ SeqSet(Rec.hid) = ChangedHid(regs, s1)
 
-Go(s1, ok) == regs' = s1 /\ ln' = ln + 1 /\ frame' = ok
+\* the step to specification state s1 after an access to offset off (0x800: none), with the verdict
+\* ok of the property layer on the observation
+Go(s1, off, ok) ==
+    LET nrd == ReadAll(s1) IN
+    /\ SeqSet(Rec.ch)  = ChangedReads(s1, nrd, off)
+    /\ SeqSet(Rec.hid) = ChangedHid(regs, s1)
+    /\ regs' = s1 /\ ln' = ln + 1 /\ frame' = ok /\ rdb' = nrd
 
 \* property layer on the observation
 ObsChanged == { e[1] : e \in SeqSet(Rec.ch) }
@@ -69,17 +79,16 @@ TNew ==
     /\ LET s1 == FreshWith(Rec.iv) IN
        /\ SeqSet(Rec.nz)  = { <<o, Read(s1, o)>> : o \in { x \in Pure : Read(s1, x) # 0 } }
        /\ SeqSet(Rec.hnz) = { <<id, s1[HidKey[id]]>> : id \in { x \in HidIds : s1[HidKey[x]] # 0 } }
-       /\ Go(s1, TRUE)
+       /\ regs' = s1 /\ ln' = ln + 1 /\ frame' = TRUE /\ rdb' = ReadAll(s1)
 
-TReset == IsEvent("Reset") /\ LET s1 == ResetEffect(regs) IN Observed(s1, \h800) /\ Go(s1, TRUE)
+TReset == IsEvent("Reset") /\ Go(ResetEffect(regs), \h800, TRUE)
 
 TW ==
     /\ IsEvent("W")
     /\ LET w == AccessWrite(regs, Rec.p, Rec.a, Rec.v) IN
        /\ w.off = Rec.o
        /\ w.out = Rec.out
-       /\ Observed(w.s, w.off)
-       /\ Go(w.s, IF w.off = \h800 THEN ObsChanged = {} ELSE WriteFrame(w.off, Rec.v, Rec.out))
+       /\ Go(w.s, w.off, IF w.off = \h800 THEN ObsChanged = {} ELSE WriteFrame(w.off, Rec.v, Rec.out))
 
 TR ==
     /\ IsEvent("R")
@@ -88,20 +97,18 @@ TR ==
        /\ r.off = Rec.o
        /\ r.out = Rec.out
        /\ r.r   = Rec.r
-       /\ Observed(r.s, r.off)
-       /\ Go(r.s, ReadFrame(r.off))
+       /\ Go(r.s, r.off, ReadFrame(r.off))
 
 \* the host side of the mailbox: may change the DSP-side status words and raise IRQ 14
 HostFrame == ObsChanged \subseteq { \hC2, \hC6, \hCA, \hD2, \hD6, \hD8, \h200 }
-THSend    == IsEvent("HSend")    /\ LET s1 == HostSend(regs, Rec.i, Rec.v) IN Observed(s1, \h800) /\ Go(s1, HostFrame)
-THRecv    == IsEvent("HRecv")    /\ Rec.r = regs[FD(Dn("data", Rec.i))]
-                                 /\ LET s1 == HostRecv(regs, Rec.i) IN Observed(s1, \h800) /\ Go(s1, HostFrame)
-THSetSem  == IsEvent("HSetSem")  /\ LET s1 == HostSetSem(regs, Rec.v) IN Observed(s1, \h800) /\ Go(s1, HostFrame)
-THClrSem  == IsEvent("HClrSem")  /\ LET s1 == HostClrSem(regs, Rec.v) IN Observed(s1, \h800) /\ Go(s1, ObsChanged \subseteq { \hCC })
-THMaskSem == IsEvent("HMaskSem") /\ LET s1 == HostMaskSem(regs, Rec.v) IN Observed(s1, \h800) /\ Go(s1, ObsChanged = {})
-THGetSem  == IsEvent("HGetSem")  /\ Rec.r = regs[FD("sem")] /\ Observed(regs, \h800) /\ Go(regs, ObsChanged = {})
+THSend    == IsEvent("HSend")    /\ Go(HostSend(regs, Rec.i, Rec.v), \h800, HostFrame)
+THRecv    == IsEvent("HRecv")    /\ Rec.r = regs[FD(Dn("data", Rec.i))] /\ Go(HostRecv(regs, Rec.i), \h800, HostFrame)
+THSetSem  == IsEvent("HSetSem")  /\ Go(HostSetSem(regs, Rec.v), \h800, HostFrame)
+THClrSem  == IsEvent("HClrSem")  /\ Go(HostClrSem(regs, Rec.v), \h800, ObsChanged \subseteq { \hCC })
+THMaskSem == IsEvent("HMaskSem") /\ Go(HostMaskSem(regs, Rec.v), \h800, ObsChanged = {})
+THGetSem  == IsEvent("HGetSem")  /\ Rec.r = regs[FD("sem")] /\ Go(regs, \h800, ObsChanged = {})
 
-TraceInit == regs = Fresh /\ ln = 1 /\ frame = TRUE
+TraceInit == regs = Fresh /\ ln = 1 /\ frame = TRUE /\ rdb = ReadAll(Fresh)
 TraceNext == TNew \/ TReset \/ TW \/ TR \/ THSend \/ THRecv \/ THSetSem \/ THClrSem \/ THMaskSem \/ THGetSem
 TraceSpec == TraceInit /\ [][TraceNext]_tvars
 
